@@ -6,6 +6,7 @@ import BiotiteModel.Proofs.C08Prefix
 import BiotiteModel.Proofs.C08Trace
 import BiotiteModel.Proofs.C08Local
 import BiotiteModel.Proofs.C08LookupLocal
+import BiotiteModel.Proofs.C08TraceAff
 import BiotiteModel.Gen.C08
 /-!
 # C08 — property theorems (optimal pairwise alignment returns the true optimum)
@@ -563,6 +564,68 @@ theorem C08_noabut_covers_free_terminal_gaps :
   refine ⟨⟨by unfold ValidGlobal; decide, by unfold NoAbut; decide, by decide, by decide, by decide⟩,
     ⟨by unfold ValidGlobal; decide, by unfold NoAbut; decide, by decide, by decide⟩⟩
 
+/-! ## Affine traceback on the model -/
+
+
+/-- Affine traceback on the model (global / semi-global): every trace the three-state `follow_trace` model yields
+from the filled tables is a valid alignment without abutting gaps whose public score is `optAff`. -/
+theorem C08_traces_valid_aff (mode : Mode) (hm : mode ≠ .local) (M : Mat) (go ge : Int) (a b : Seq) (mx : Nat)
+    (aln : Aln) (h : aln ∈ tracesAff mode M go ge a b (affRec mode M go ge a b).val mx) :
+    Valid mode a b aln ∧ NoAbut aln ∧ score mode (.aff go ge) M a b aln = optAff mode M go ge a b := by
+  obtain ⟨s, hs, hx⟩ := List.mem_flatMap.mp (List.mem_of_mem_take h)
+  obtain ⟨hpos, hkn, v, hv, hbest⟩ := startsAff_mem mode hm _ _ _ s hs
+  obtain ⟨p, k⟩ := s
+  simp only at hpos hkn hv
+  subst hpos
+  cases mode with
+  | «local» => exact absurd rfl hm
+  | global =>
+    have hvn : valN .global (affRec .global M go ge a b).val ((a.length, b.length), k) = some v := by
+      rw [valN_nonlocal .global (by decide) _ _ _ hkn]; exact hv
+    obtain ⟨pre, s0, he, hR0, hn0, hw, hsc, hna, _⟩ := followG_good
+      (nextAff .global M go ge a b (affRec .global M go ge a b).val) (fun s => s.1) (fun s => s.2)
+      (fun s => (valN .global (affRec .global M go ge a b).val s).getD 0)
+      (RealN .global (affRec .global M go ge a b).val) (costAffK .global M go ge a b) mx
+      (hnext_aff_global M go ge a b)
+      (fun s hR hn => ⟨(hend_aff_global M go ge a b s hR hn).1, (hend_aff_global M go ge a b s hR hn).2.1⟩)
+      _ _ _ _ ⟨v, hvn⟩ aln hx
+    have h0 := (hend_aff_global M go ge a b s0 hR0 hn0).2.2
+    simp only [List.append_nil] at he
+    subst he
+    simp only [h0] at hw hsc
+    refine ⟨hw, by unfold NoAbut; rw [noAbutB_eq]; exact hna, ?_⟩
+    rw [score_aff_eq_pos .global (by decide) M go ge a b aln (0, 0), hsc, hvn]
+    simp [optAff, hbest]
+  | semi =>
+    have hvn : valN .semi (affRec .semi M go ge a b).val ((a.length, b.length), k) = some v := by
+      rw [valN_nonlocal .semi (by decide) _ _ _ hkn]; exact hv
+    obtain ⟨pre, s0, he, hR0, hn0, hw, hsc, hna, _⟩ := followG_good
+      (nextAff .semi M go ge a b (affRec .semi M go ge a b).val) (fun s => s.1) (fun s => s.2)
+      (fun s => (valN .semi (affRec .semi M go ge a b).val s).getD 0)
+      (RealN .semi (affRec .semi M go ge a b).val) (costAffK .semi M go ge a b) mx
+      (hnext_aff_semi M go ge a b)
+      (fun s hR hn => ⟨(hend_aff_semi M go ge a b s hR hn).1, (hend_aff_semi M go ge a b s hR hn).2.1⟩)
+      _ _ _ _ ⟨v, hvn⟩ aln hx
+    have h0 := (hend_aff_semi M go ge a b s0 hR0 hn0).2.2
+    simp only [List.append_nil] at he
+    subst he
+    simp only [h0] at hw hsc
+    refine ⟨hw, by unfold NoAbut; rw [noAbutB_eq]; exact hna, ?_⟩
+    rw [C08_scorePub_semi_aff M go ge a b aln hw]
+    unfold scoreAffSemiPos
+    rw [hsc, hvn]
+    simp [optAff, hbest]
+
+/-- affine `follow_trace` started with counter 1 returns at most `max_number` traces per start node. -/
+theorem C08_traces_count_aff (mode : Mode) (M : Mat) (go ge : Int) (a b : Seq) (T : Nat → Nat → AffCell)
+    (mx fuel : Nat) (hmx : 1 ≤ mx) (s : ANode) :
+    (followG (nextAff mode M go ge a b T) mx fuel s [] 1).1.length ≤ mx ∧
+    (tracesAff mode M go ge a b T mx).length ≤ mx := by
+  obtain ⟨h1, _, h3⟩ := followG_count (nextAff mode M go ge a b T) mx fuel s [] 1
+  have := h3 hmx
+  exact ⟨by omega, List.length_take_le _ _⟩
+
+
 /-- Known finding, as modelled: affine + not local + an empty sequence raises IndexError. -/
 theorem C08_affine_empty_defect : raisesIndexError .global (.aff (-2) (-1)) [0, 0] [] = true := by decide
 
@@ -619,5 +682,8 @@ example : tracesLocalLin (Mat.ofRows [[-1]]) (-1) [0] [0] (linRec .local (Mat.of
     = [[], [], []] := by decide
 example : tracesLocalLin (Mat.ofRows [[2]]) (-1) [0] [0] (linRec .local (Mat.ofRows [[2]]) (-1) [0] [0]).val 3
     = [[.both 0 0]] := by decide
+/-- affine traceback model on a concrete input: one optimal trace, `A-`/`AC`-style -/
+example : tracesAff .global (Mat.ofRows [[1, -1], [-1, 1]]) (-3) (-1) [0, 1] [1]
+    (affRec .global (Mat.ofRows [[1, -1], [-1, 1]]) (-3) (-1) [0, 1] [1]).val 5 = [[.gapB 0, .both 1 0]] := by decide
 
 end BiotiteModel.C08
